@@ -450,6 +450,31 @@ func workCurve(rc *recorder, rng *rand.Rand, scale int) {
 		h := n / 3
 		rc.out("EdwardsPoint.ExpandedMultiscalarMulVartime", encE(curve.NewEdwardsPoint().ExpandedMultiscalarMulVartime(ss[:h], xs[:h], ss[h:], ps[h:])))
 	}
+	// special coefficient x special point, deterministically: the coefficients that "mean" something in the group (0, +-1,
+	// +-2, the cofactor and its negative, 2^252, L+1) on every point of the pool that is not of prime order (torsion,
+	// mixed order) and a few that are, in two- and three-term products through every multiscalar entry point
+	{
+		spec := []*big.Int{big.NewInt(0), big.NewInt(1), big.NewInt(2), big.NewInt(8), new(big.Int).Sub(ref.L, big.NewInt(1)), new(big.Int).Sub(ref.L, big.NewInt(2)), new(big.Int).Sub(ref.L, big.NewInt(8)), new(big.Int).Add(ref.L, big.NewInt(1)), new(big.Int).Lsh(big.NewInt(1), 252)}
+		step := 1
+		if Light {
+			step = 3
+		}
+		for pi := 0; pi < len(pool); pi += step {
+			e := pool[pi]
+			q := pool[(pi*7+3)%len(pool)]
+			for si, sv := range spec {
+				s1, s2 := sc(sv), sc(spec[(si+pi)%len(spec)])
+				s3 := sc(gen.RandScalar(rng, cat))
+				rc.out("multiscalar(special coefficient, special point)",
+					encE(curve.NewEdwardsPoint().MultiscalarMulVartime([]*scalar.Scalar{s1, s3}, []*curve.EdwardsPoint{e.Lib, q.Lib})),
+					encE(curve.NewEdwardsPoint().MultiscalarMulVartime([]*scalar.Scalar{s3, s2, s1}, []*curve.EdwardsPoint{q.Lib, e.Lib, e.Lib})),
+					encE(curve.NewEdwardsPoint().MultiscalarMul([]*scalar.Scalar{s1, s3}, []*curve.EdwardsPoint{e.Lib, q.Lib})),
+					encE(curve.NewEdwardsPoint().ExpandedMultiscalarMulVartime([]*scalar.Scalar{s1}, []*curve.ExpandedEdwardsPoint{e.Exp}, []*scalar.Scalar{s2}, []*curve.EdwardsPoint{e.Lib})),
+					encE(curve.NewEdwardsPoint().DoubleScalarMulBasepointVartime(s1, e.Lib, s2)),
+					encE(curve.NewEdwardsPoint().Mul(e.Lib, s1)))
+			}
+		}
+	}
 	rc.do("EdwardsPoint.MultiscalarMul(len mismatch)", func() { curve.NewEdwardsPoint().MultiscalarMul([]*scalar.Scalar{scalar.One()}, nil) })
 	parts := [][]byte{curve.ED25519_BASEPOINT_COMPRESSED[:], encE(curve.ED25519_BASEPOINT_POINT), curve.X25519_BASEPOINT[:], curve.RISTRETTO_BASEPOINT_COMPRESSED[:], encR(curve.RISTRETTO_BASEPOINT_POINT), encE(curve.ED25519_BASEPOINT_TABLE.Basepoint()), encR(curve.RISTRETTO_BASEPOINT_TABLE.Basepoint())}
 	for _, t := range curve.EIGHT_TORSION {
